@@ -1,5 +1,5 @@
 """OCaml extraction of Coq models + trusted line-oriented drivers (ExtrOcamlBasic only)."""
-import os, shutil
+import os, re, shutil
 from . import core
 
 EX = os.path.join(core.VERIF, "extract")
@@ -10,6 +10,19 @@ def build(name, vfile, driver):
     """coqc <vfile> (extraction into GEN/<name>/) then ocamlopt model + driver. Returns binary path."""
     d = os.path.join(GEN, name)
     os.makedirs(d, exist_ok=True)
+    # the model files the extraction imports must be compiled against the current sources (another property's
+    # Props target need not have built them)
+    vos = []
+    for line in open(os.path.join(EX, vfile)):
+        m = re.match(r"\s*From MS Require Import (.*?)\.\s*$", line)
+        if m:
+            vos += [x.replace(".", "/") + ".vo" for x in m.group(1).split()]
+    if vos:
+        with core.Lock("coq"):
+            core.coq_makefile()
+            rc, out, err = core.sh("timeout 1500 make -j%d %s" % (core.NCPU, " ".join(vos)), cwd=core.COQ, timeout=1600)
+        if rc != 0:
+            raise core.BuildError("building the models for extraction %s failed: %s" % (vfile, (out + err).decode("utf8", "replace")[-2000:]))
     with core.Lock("extract-" + name):
         shutil.copy(os.path.join(EX, vfile), os.path.join(d, vfile))
         shutil.copy(os.path.join(EX, driver), os.path.join(d, driver))
